@@ -5,8 +5,10 @@
 
   Days are `Int` day numbers (`datetime.toordinal()`); every date handed to the calendar is a midnight
   datetime (intraday inputs — `trade_date`, `is_trading`, `clock` — are not modelled).
-  `month : Int → Int` (month of a day number) is a parameter of the calendar: the theorems hold for every
-  such function, the driver instantiates it with `Civil.month`.
+  `month : Int → Int` (the calendar month a day number lies in) is a parameter of the calendar: the structural theorems
+  hold for every such function; the driver instantiates it with `ymKey` = `12 * year + month`, which identifies the
+  month *of a year* (proved injective on (year, month): Props/C05 `ymKey_eq_iff`), because the property speaks of
+  "t's month", not of a month number (`t.month` alone: defect C05-D1, repaired in the repo).
   Core Lean only (linked into the driver).
 -/
 import PygModel.Basic
@@ -59,6 +61,10 @@ def atIdxT (tbl : List Int) (j : Int) : Res Int :=
   | some r => .ok r
   | none => .error .key
 
+/-- the calendar month (of a particular year) a day number lies in, as one integer: what
+`(t.year, t.month) != (date.year, date.month)` compares in `adjust(.., 'm')` (_drange.py:560) -/
+def ymKey (n : Int) : Int := 12 * Civil.year n + Civil.month n
+
 inductive Adj where
   | f | p | m
   deriving Repr, DecidableEq, Inhabited
@@ -70,7 +76,7 @@ structure Cal where
   weekend : List Int
   hol : List Int
   adj : Adj
-  /-- month of a day number (`t.month`), see header -/
+  /-- the calendar month of a day number (`(t.year, t.month)` as one key), see header -/
   month : Int → Int
 
 namespace Cal
